@@ -10,15 +10,14 @@ import (
 // Mode C instrumentation. All rewrites work on statement lists (block, case and comm-clause bodies):
 //
 //	go f(a, b)                       -> { _vf, _va0, _va1 := f, a, b; vsched.Go(func() { _vf(_va0, _va1) }) }
-//	select without default           -> vsched.Point; for _vd := false; !_vd; { _vd = true; select { ...; default: _vd = false; vsched.WaitExternal() } }
+//	select without default           -> vsched.Point; _vlN: select { ...; default: vsched.WaitExternal(); goto _vlN }
 //	select with default              -> preceded by vsched.Point("select")
 //	<-ch (statement)                 -> same loop around select { case <-ch: }
 //	for k := range x.mapField        -> for _, k := range vsched.Keys(x.mapField)
 //	x.mapField[k] = v                -> followed by vsched.Note(k)
 //	stmt mentioning a mutable field  -> preceded by vsched.Access("file:line field")
 //
-// Anything else that can block or spawn (labelled blocking select, continue inside a rewritten select, receive in an
-// expression, send statement, range with key and value over a tracked map) is refused.
+// Anything else that can block or spawn (a go statement outside a statement list, a range over a channel) is refused.
 type cinst struct {
 	fset    *token.FileSet
 	rel     string
@@ -339,48 +338,9 @@ func (ci *cinst) stmt(st ast.Stmt, line int, out []ast.Stmt) []ast.Stmt {
 		out = append(out, ci.goStmt(x))
 		return out
 	case *ast.SelectStmt:
-		out = append(out, call("vsched", "Point", strLit(fmt.Sprintf("%s:%d select", ci.rel, line))))
-		hasSend := false
-		for _, c := range x.Body.List {
-			// a communication that succeeded may be what another thread is waiting for (channel as semaphore)
-			if cc := c.(*ast.CommClause); cc.Comm != nil {
-				sig := call("vsched", "Signal")
-				ci.gen[sig] = true
-				pro := []ast.Stmt{sig}
-				// happens-before: the receive that succeeded acquires what the sender / closer released
-				switch cm := cc.Comm.(type) {
-				case *ast.ExprStmt:
-					if u, ok := cm.X.(*ast.UnaryExpr); ok && u.Op == token.ARROW {
-						pro = append(pro, ci.chanAcquire(u.X, x))
-					}
-				case *ast.AssignStmt:
-					if u, ok := cm.Rhs[0].(*ast.UnaryExpr); ok && u.Op == token.ARROW {
-						pro = append(pro, ci.chanAcquire(u.X, x))
-					}
-				case *ast.SendStmt:
-					hasSend = true
-					// the send succeeded: the receive that made room for it happens before what follows (semaphore idiom)
-					var acq ast.Stmt
-					switch cm.Chan.(type) {
-					case *ast.Ident, *ast.SelectorExpr:
-						if ci.baseOK(cm.Chan, false, x) {
-							acq = call("vsched", "HBChanSent", cloneExpr(cm.Chan))
-						}
-					}
-					if acq == nil {
-						acq = call("vsched", "HBAcquireAll")
-					}
-					ci.gen[acq] = true
-					pro = append(pro, acq)
-				}
-				cc.Body = append(pro, cc.Body...)
-			}
-		}
-		if hasSend {
-			// the channel of a send case is not named at this point: release to every later receive
-			out = append(out, call("vsched", "HBReleaseGlobal"))
-		}
-		out = append(out, ci.selectStmt(x))
+		pre, sel := ci.selectWhole(x, line)
+		out = append(out, pre...)
+		out = append(out, sel)
 		return out
 	case *ast.ExprStmt:
 		if u, ok := x.X.(*ast.UnaryExpr); ok && u.Op == token.ARROW {
@@ -399,8 +359,21 @@ func (ci *cinst) stmt(st ast.Stmt, line int, out []ast.Stmt) []ast.Stmt {
 		out = append(out, &ast.ExprStmt{X: &ast.CallExpr{Fun: &ast.SelectorExpr{X: ast.NewIdent("vsched"), Sel: ast.NewIdent("Send")}, Args: []ast.Expr{x.Chan, x.Value}}})
 		return out
 	case *ast.LabeledStmt:
-		if s, ok := x.Stmt.(*ast.SelectStmt); ok && !hasDefault(s) {
-			ci.fail(x.Pos(), "labelled blocking select: not supported")
+		if sel, ok := x.Stmt.(*ast.SelectStmt); ok {
+			pre, st2 := ci.selectWhole(sel, line)
+			out = append(out, pre...)
+			if ls, ok := st2.(*ast.LabeledStmt); ok {
+				// _vlN: L: select {...}  (L must label the select itself for `break L`; the retry label goes outside)
+				x.Stmt = ls.Stmt
+				ls.Stmt = x
+				ci.gen[x] = true
+				out = append(out, ls)
+			} else {
+				x.Stmt = st2
+				ci.gen[x] = true
+				out = append(out, x)
+			}
+			return out
 		}
 	case *ast.RangeStmt:
 		if se, ok := x.X.(*ast.SelectorExpr); ok && ci.mapFld[se.Sel.Name] {
@@ -444,6 +417,52 @@ func (ci *cinst) stmt(st ast.Stmt, line int, out []ast.Stmt) []ast.Stmt {
 	}
 	out = append(out, st)
 	return out
+}
+
+// selectWhole instruments a select statement: the statements to put before it and the rewritten statement.
+func (ci *cinst) selectWhole(x *ast.SelectStmt, line int) (out []ast.Stmt, sel ast.Stmt) {
+	out = append(out, call("vsched", "Point", strLit(fmt.Sprintf("%s:%d select", ci.rel, line))))
+	hasSend := false
+	for _, c := range x.Body.List {
+		// a communication that succeeded may be what another thread is waiting for (channel as semaphore)
+		if cc := c.(*ast.CommClause); cc.Comm != nil {
+			sig := call("vsched", "Signal")
+			ci.gen[sig] = true
+			pro := []ast.Stmt{sig}
+			// happens-before: the receive that succeeded acquires what the sender / closer released
+			switch cm := cc.Comm.(type) {
+			case *ast.ExprStmt:
+				if u, ok := cm.X.(*ast.UnaryExpr); ok && u.Op == token.ARROW {
+					pro = append(pro, ci.chanAcquire(u.X, x))
+				}
+			case *ast.AssignStmt:
+				if u, ok := cm.Rhs[0].(*ast.UnaryExpr); ok && u.Op == token.ARROW {
+					pro = append(pro, ci.chanAcquire(u.X, x))
+				}
+			case *ast.SendStmt:
+				hasSend = true
+				// the send succeeded: the receive that made room for it happens before what follows (semaphore idiom)
+				var acq ast.Stmt
+				switch cm.Chan.(type) {
+				case *ast.Ident, *ast.SelectorExpr:
+					if ci.baseOK(cm.Chan, false, x) {
+						acq = call("vsched", "HBChanSent", cloneExpr(cm.Chan))
+					}
+				}
+				if acq == nil {
+					acq = call("vsched", "HBAcquireAll")
+				}
+				ci.gen[acq] = true
+				pro = append(pro, acq)
+			}
+			cc.Body = append(pro, cc.Body...)
+		}
+	}
+	if hasSend {
+		// the channel of a send case is not named at this point: release to every later receive
+		out = append(out, call("vsched", "HBReleaseGlobal"))
+	}
+	return out, ci.selectStmt(x)
 }
 
 func hasDefault(s *ast.SelectStmt) bool {
@@ -518,48 +537,19 @@ func (ci *cinst) selectStmt0(s *ast.SelectStmt) ast.Stmt {
 	if hasDefault(s) {
 		return s
 	}
-	// refuse an unlabelled continue that would bind to the added loop
-	for _, c := range s.Body.List {
-		for _, b := range c.(*ast.CommClause).Body {
-			ast.Inspect(b, func(n ast.Node) bool {
-				switch t := n.(type) {
-				case *ast.ForStmt, *ast.RangeStmt, *ast.FuncLit:
-					return false
-				case *ast.BranchStmt:
-					if t.Tok == token.CONTINUE && t.Label == nil {
-						ci.fail(t.Pos(), "continue inside a blocking select: not supported")
-					}
-				}
-				return true
-			})
-		}
-	}
-	// if every case ends in a terminating statement the original select was itself terminating (a function may end
-	// with it); keep that property by looping without any exit other than the cases' own returns
-	allTerm := true
-	for _, c := range s.Body.List {
-		b := c.(*ast.CommClause).Body
-		if len(b) == 0 || !terminating(b[len(b)-1]) {
-			allTerm = false
-		}
-	}
-	if allTerm {
-		ci.gen[s] = true
-		s.Body.List = append(s.Body.List, &ast.CommClause{Body: []ast.Stmt{call("vsched", "WaitExternal")}})
-		return &ast.ForStmt{Body: &ast.BlockStmt{List: []ast.Stmt{s}}}
-	}
+	// a blocking select becomes a polling one that is retried after every external event:
+	//
+	//	_vlN: select { <cases>; default: vsched.WaitExternal(); goto _vlN }
+	//
+	// No loop is wrapped around it, so break / continue / labels inside the cases mean what they meant, and a select all of
+	// whose cases end in a terminating statement stays one (the added clause ends in a goto).
 	ci.n++
-	d := ast.NewIdent(fmt.Sprintf("_vd%d", ci.n))
-	set := func(v string) ast.Stmt {
-		return &ast.AssignStmt{Lhs: []ast.Expr{d}, Tok: token.ASSIGN, Rhs: []ast.Expr{ast.NewIdent(v)}}
-	}
+	lbl := fmt.Sprintf("_vl%d", ci.n)
 	ci.gen[s] = true
-	s.Body.List = append(s.Body.List, &ast.CommClause{Body: []ast.Stmt{set("false"), call("vsched", "WaitExternal")}})
-	return &ast.ForStmt{
-		Init: &ast.AssignStmt{Lhs: []ast.Expr{d}, Tok: token.DEFINE, Rhs: []ast.Expr{ast.NewIdent("false")}},
-		Cond: &ast.UnaryExpr{Op: token.NOT, X: d},
-		Body: &ast.BlockStmt{List: []ast.Stmt{set("true"), s}},
-	}
+	s.Body.List = append(s.Body.List, &ast.CommClause{Body: []ast.Stmt{call("vsched", "WaitExternal"), &ast.BranchStmt{Tok: token.GOTO, Label: ast.NewIdent(lbl)}}})
+	ls := &ast.LabeledStmt{Label: ast.NewIdent(lbl), Stmt: s}
+	ci.gen[ls] = true
+	return ls
 }
 
 // terminating: a conservative version of the specification's "terminating statement" (return, goto, panic call, and
